@@ -25,6 +25,20 @@ def ref_poses(names, s, a):
     return {pose(r) for r in R.ref_chain_set(names, s, a)}
 
 
+_nested = {}
+
+
+def nested_fn(names):
+    """the same chain assembled the way a configuration file can: through the registry factory, with its head wrapped in a
+    chain of its own (nesting is transparent).  Built once per process and used for every case."""
+    if names not in _nested:
+        from gym_gridverse.envs import transition_functions as TRF
+        fns = [TRF.factory(n) for n in names]
+        inner = TRF.factory('chain', transition_functions=fns[:2])
+        _nested[names] = TRF.factory('chain', transition_functions=[inner] + fns[2:])
+    return _nested[names]
+
+
 def judge(names, s, a):
     """returns (n_executions, nontrivial, message or None, signature)"""
     fn = dyn.chain_fn(names)
@@ -47,6 +61,14 @@ def judge(names, s, a):
             return len(outs), True, (
                 f'{"+".join(names)} on {a}: pose {pose(s)} -> {p}, reference allows {sorted(want)} (script {choices})'
             ), sig
+    if len(names) > 1 and outs and not dyn.is_exc(outs[0][1]):
+        # nested / factory-built form of the chain: same successor for the same random script, at every call
+        for _ in range(2):
+            res_n, _rng = dyn.execute(nested_fn(names), s, a, outs[0][0])
+            if res_n != outs[0][1]:
+                got = f'raised {res_n[1]}' if dyn.is_exc(res_n) else f'pose {pose(s)} -> {pose(res_n)}'
+                return len(outs) + 2, True, (f'{"+".join(names)} on {a}: the factory-built chain with a nested chain {got}, the flat '
+                                             f'chain gives pose {pose(outs[0][1])} (script {outs[0][0]})'), dict(sig, nested=True)
     if not capped and 'teleport' in names and seen != want:
         return len(outs), True, (
             f'{"+".join(names)} on {a}: reachable poses {sorted(seen)} != reference {sorted(want)}'), sig
